@@ -646,6 +646,32 @@ func main() {
 				}
 			})
 		}
+
+		// Characters that a compatibility mapping turns into the expected ones
+		// (fullwidth digits and letters, ideographic full stop, soft hyphen...),
+		// and decimal labels around the word sizes at every octet position.
+		for _, base := range gen.ArpaCanonicalNames() {
+			gen.Confusables(base, func(m string) {
+				if sm.Mine() {
+					other("confusables", m)
+				}
+			})
+		}
+
+		for _, big := range gen.BigDecimals {
+			for pos := 0; pos < 4; pos++ {
+				oct := []string{"4", "3", "2", "1"}
+				oct[pos] = big
+				for k := 1; k <= 4; k++ {
+					for _, root := range []string{".in-addr.arpa", ".in-addr.arpa.", ".IN-ADDR.ARPA"} {
+						if sm.Mine() {
+							other("big-decimal-octets", strings.Join(oct[4-k:], ".")+root)
+							other("big-decimal-octets", "host."+strings.Join(oct[4-k:], ".")+root)
+						}
+					}
+				}
+			}
+		}
 	})
 }
 
